@@ -1116,6 +1116,8 @@ func replay(kind, tags, args string) {
 		replayInter(kind, tok)
 	case "ntimed.epochsrc":
 		epochSrc()
+	case "svc.filters":
+		replayFilters(tok)
 	case "lucky.hist", "lucky.wild":
 		var ops []lop
 		for _, o := range parseOps(tok, 2) {
@@ -1192,6 +1194,7 @@ func main() {
 	timebase.RegisterClock(clk)
 	w = lib.NewWriter(a.Out)
 	defer w.Close()
+	defer cleanupService()
 	if a.Replay != "" {
 		for _, c := range lib.ReplayLines(a.Replay) {
 			replay(c[0], c[1], c[2])
@@ -1234,6 +1237,11 @@ func main() {
 	for i := 0; i < 6; i++ {
 		monoHist(r)
 	}
+	nsvc := 40
+	if a.Tier == "thorough" {
+		nsvc = 300
+	}
+	filtersCases(r.Fork(), nsvc)
 	for i := 0; i < n; i++ {
 		if i%6 == 0 {
 			genLuckyInter(r)
